@@ -11,7 +11,6 @@ use serde::{Deserialize, Serialize};
 use std::io::Write;
 use std::path::{Path, PathBuf};
 
-pub const ADLT_BIN: &str = "/verif/harness/target/adlt-bin/release/adlt";
 
 #[derive(Clone, Debug, Serialize, Deserialize)]
 pub struct Group {
@@ -179,7 +178,7 @@ impl Drop for Sandbox {
 }
 
 pub fn run_convert(args: &[String]) -> Result<(String, String), String> {
-    let o = std::process::Command::new(ADLT_BIN).arg("convert").args(args).env("TZ", "UTC").env("RAYON_NUM_THREADS", "1").output().map_err(|e| format!("cannot run {}: {}", ADLT_BIN, e))?;
+    let o = std::process::Command::new(crate::engine::adlt_bin()).arg("convert").args(args).env("TZ", "UTC").env("RAYON_NUM_THREADS", "1").output().map_err(|e| format!("cannot run {}: {}", crate::engine::adlt_bin().display(), e))?;
     let stdout = String::from_utf8_lossy(&o.stdout).into_owned();
     let stderr = String::from_utf8_lossy(&o.stderr).into_owned();
     if !o.status.success() {
